@@ -157,20 +157,28 @@ structure Split where
   dicts : List Ty := []
   other : List Ty := []
 
-/-- the category split of `_optimize_union` (generator.py:220-233) -/
-def splitMembers (reg : StrRegistry) (ts : List Ty) : Split :=
-  ts.foldl (fun (s : Split) item =>
+/-- the category split of `_optimize_union` (generator.py:220-240) as its worklist: an `Optional[X]` member contributes
+    `Null` and `X`; a union met there (it can only hide under `Optional`: `DUnion` flattens directly nested unions) has
+    its members spliced in at the front, so that they take part in the split. `fuel` bounds the splicing. -/
+def splitMembersAux (reg : StrRegistry) : Nat → List Ty → Split → Split
+  | 0, _, s => s
+  | _, [], s => s
+  | fuel + 1, item :: rest, s =>
     let (item, s) := match item with
       | .opt x => (x, { s with other := s.other ++ [Ty.null] })
       | x => (x, s)
     match item with
-    | .obj fs => { s with toMerge := s.toMerge ++ [fs] }
-    | .str => { s with strTypes := s.strTypes ++ [item] }
-    | .ser k => if reg.types.contains k then { s with strTypes := s.strTypes ++ [item] }
-                else { s with other := s.other ++ [item] }
-    | .list x => { s with lists := s.lists ++ [x] }
-    | .dict x => { s with dicts := s.dicts ++ [x] }
-    | x => { s with other := s.other ++ [x] }) {}
+    | .union ms => splitMembersAux reg fuel (ms ++ rest) s
+    | .obj fs => splitMembersAux reg fuel rest { s with toMerge := s.toMerge ++ [fs] }
+    | .str => splitMembersAux reg fuel rest { s with strTypes := s.strTypes ++ [item] }
+    | .ser k => splitMembersAux reg fuel rest
+        (if reg.types.contains k then { s with strTypes := s.strTypes ++ [item] } else { s with other := s.other ++ [item] })
+    | .list x => splitMembersAux reg fuel rest { s with lists := s.lists ++ [x] }
+    | .dict x => splitMembersAux reg fuel rest { s with dicts := s.dicts ++ [x] }
+    | x => splitMembersAux reg fuel rest { s with other := s.other ++ [x] }
+
+def splitMembers (reg : StrRegistry) (ts : List Ty) : Split :=
+  splitMembersAux reg ((ts.map Ty.size).sum + ts.length + 1) ts {}
 
 mutual
 /-- `optimize_type(meta)`; fuel bounds the recursion into freshly built terms -/
